@@ -243,3 +243,34 @@ def generate(tier, rng):
 
 def shrink(case):
     return []
+
+
+def check(tier, seed, replay=None):
+    """Standard flow, except that cases whose harness process stalled / died / produced nothing are re-run (up to
+    twice, with few workers) before they are judged: on a heavily loaded machine a worker can be starved for minutes.
+    A reproducible hang or abort is still observed as `(hang)` / `(abort n)` and judged `bad`."""
+    import types
+    from vlib import core, flow
+
+    def flaky(o):
+        return o.startswith("(hang") or o.startswith("(abort") or o.startswith("(missing")
+
+    def judge_cases(model_exe, mode, cases, harness_exe=None, stall=30.0):
+        obs = core.run_impl(mode, cases, exe=harness_exe, stall=stall)
+        for _ in range(2):
+            redo = [c for c in cases if flaky(obs.get(c["id"], "(missing)"))]
+            if not redo:
+                break
+            core.log("[C03] re-running %d cases whose harness process stalled or died" % len(redo))
+            obs.update(core.run_impl(mode, redo, exe=harness_exe, stall=stall, workers=4))
+        lines = ["(%s %s)" % (c["sx"], obs.get(c["id"], "(missing)")) for c in cases]
+        verdicts = core.run_model(model_exe, lines)
+        return [(c, obs.get(c["id"], "(missing)"), v) for c, v in zip(cases, verdicts)]
+
+    plugin = types.SimpleNamespace(**{k: v for k, v in globals().items() if k != "check" and not k.startswith("__")})
+    orig = flow.judge_cases
+    flow.judge_cases = judge_cases
+    try:
+        return flow.standard_check(plugin, tier, seed, replay)
+    finally:
+        flow.judge_cases = orig
